@@ -23,7 +23,10 @@ fn next_down(x: f64) -> f64 {
 }
 
 fn axis_alphabet(l: f64) -> Vec<f64> {
-    vec![-2.0 * l, -next_up(l), -l, -1e-20, -0.0, 0.0, 5e-324, l / 3.0, 0.5 * l, next_down(l), l, next_up(l), 2.0 * l, 1e6 * l + 0.3 * l, -1e6 * l - 0.3 * l, 0.25 * l, 1.25 * l, -0.75 * l]
+    // (k * l for odd k: for a period that is not a dyadic rational the rounded product lies just below or above the
+    // lattice face, and the rounded quotient x / l can land on an integer the true quotient does not reach; 1e17 is
+    // more than 2^53 periods away)
+    vec![-2.0 * l, -next_up(l), -l, -1e-20, -0.0, 0.0, 5e-324, l / 3.0, 0.5 * l, next_down(l), l, next_up(l), 2.0 * l, 1e6 * l + 0.3 * l, -1e6 * l - 0.3 * l, 0.25 * l, 1.25 * l, -0.75 * l, 3.0 * l, 5.0 * l, 6.0 * l, 7.0 * l, 9.0 * l, -3.0 * l, -7.0 * l, 1e17, -1e17]
 }
 
 /// in-box, congruent, idempotent
@@ -279,7 +282,7 @@ fn main() {
     let rep = Report::new("C16", &args);
     let thorough = args.tier == Tier::Thorough;
     let cn = Cn { wraps: AtomicU64::new(0), builds: AtomicU64::new(0), builds_ok: AtomicU64::new(0), inserts: AtomicU64::new(0), inserts_ok: AtomicU64::new(0), periodic: AtomicU64::new(0), periodic_ok: AtomicU64::new(0) };
-    let periods = [1.0, 0.75, 3.0, 2f64.powi(-20)];
+    let periods = [1.0, 0.75, 3.0, 2f64.powi(-20), 0.3, 0.7, 1.1];
     for &a in &periods {
         check_direct::<1>(&rep, &cn, [a]);
         for &b in &periods {
@@ -288,7 +291,7 @@ fn main() {
         }
     }
     // builds: point sets of 3..=4 (5 in thorough) points whose coordinates come from the boundary-value alphabet
-    let domains: Vec<[f64; 2]> = vec![[1.0, 1.0], [0.75, 3.0], [3.0, 2f64.powi(-20)]];
+    let domains: Vec<[f64; 2]> = vec![[1.0, 1.0], [0.75, 3.0], [3.0, 2f64.powi(-20)], [0.3, 1.1]];
     for domain in &domains {
         let ax: Vec<Vec<f64>> = (0..2).map(|i| axis_alphabet(domain[i])).collect();
         // pair the two axis alphabets with a shifted index so that distinct wrapped positions occur
